@@ -113,11 +113,20 @@ def handle (j : Json) : Except String Json := do
     | .ok r => pure (Json.mkObj [("created", jRes r), ("final", jRes (withPlugins r plugins)),
                                  ("detected", jDict (Res.new det none).attrs)])
   | "agg" =>
-    let base ← pRes (← j.getObjVal? "base")
+    -- base null = `initial_resource=None`: `Resource.create()` under an environment without the two variables
+    let base ← match j.getObjVal? "base" with
+      | .ok .null => match Res.create (detect none none) [] none with
+        | .ok r => pure r
+        | .error e => throw e
+      | .ok b => pRes b
+      | .error e => throw e
     let dets ← (← getArr j "dets").toList.mapM (fun d => do
       match d.getObjVal? "ok" with
       | .ok r => do pure (DetOut.ok (← pRes r))
-      | .error _ => do pure (DetOut.fails (← getBool d "fails")))
+      | .error _ =>
+        match d.getObjVal? "notResource" with
+        | .ok _ => pure DetOut.notResource
+        | .error _ => do pure (DetOut.fails (← getBool d "fails")))
     match aggregate base dets with
     | .error e => pure (Json.mkObj [("raised", e)])
     | .ok r => pure (Json.mkObj [("final", jRes r)])
